@@ -401,10 +401,3 @@ for _p in range(3):
     _f = _mk_inflight(_p)
     globals()[_f.__name__] = _f
 del _f, _p
-
-# an update of a descendant that was accepted BEFORE the completion record must also be DELIVERED before it: FIFO delivery across batch and overflow
-# boundaries (lemma shared with C05)
-from harness import C05 as _C05  # noqa: E402
-
-fifo_delivery_across_overflow = _C05.stream_sizes
-fifo_delivery_across_overflow.__module__ = __name__
